@@ -7,7 +7,7 @@ import torch
 
 from . import c11_impl as I
 from .c11_impl import BY_SIZE, DT, FORMATS, KEYS, Scratch, call, carried, first_diff, obs, project
-from .core import Sym, sx
+from .core import Sym, some, sx
 
 STRUCTURAL = ("set", "del", "rename", "lock", "unlock", "names", "newsub")
 
@@ -500,7 +500,11 @@ def run_case(case, plan, on_result):
             r = call(lambda: FORMATS[fmt][0](td, scratch, opt))
             if r[0] != "ok" and fmt == "consolidate" and opt.get("inplace") and before["locked"] and "locked" in r[1]:
                 continue
-            if r[0] == "ok":
+            if r[0] == "ok" and fmt == "struct" and I.misaligned_entries(r[1]):
+                # (observing such a tensor would take the process down: the finding is reported instead of the crash)
+                on_result(fmt, opt, before, "raise", "MisalignedTensor: from_struct_array returned entries that do not start at a multiple of "
+                          "their element size: " + str(I.misaligned_entries(r[1])), ctx, None)
+            elif r[0] == "ok":
                 rr = call(lambda: obs(r[1]))
                 if rr[0] == "ok":
                     on_result(fmt, opt, before, "ok", rr[1], ctx, r[1])
@@ -523,7 +527,45 @@ def struct_misaligned(o):
     return any(tot % s for s in sizes)
 
 
+def struct_offset_may_misalign(o):
+    """packed numpy record: some field's size is not a multiple of another field's size, so that a field can sit at an
+    offset that is not a multiple of its own size (finding D118; the observation only has the key SET, not the order)"""
+    sizes = [DT[v[1]][1] for v in o["ents"].values() if isinstance(v, list) and v[0] == "t" and v[1] in DT]
+    return any(t % s for s in sizes for t in sizes)
+
+
 RESERVED = ("leaves", "cls", "non_tensors", "cls_metadata", "size")
+
+
+def unstackable_lazy(o):
+    """a lazy stack whose members hold, under one key, tensors of different shapes or jagged tensors (D117)"""
+    if isinstance(o, list):
+        return False
+    if "members" in o:
+        seen = {}
+        for m in o["members"]:
+            if unstackable_lazy(m):
+                return True
+            for k, v in (m.get("ents") or {}).items():
+                if isinstance(v, list) and v[0] == "njt":
+                    return True
+                if isinstance(v, list) and v[0] == "t" and seen.setdefault(k, v[2]) != v[2]:
+                    return True
+        return False
+    return any(unstackable_lazy(v) for v in o["ents"].values())
+
+
+MARKERS = ("<NJT>", "<NJT_VALUES>", "<NJT_LENGTHS>", "<NJT_OFFSETS>")
+
+
+def marker_key(o):
+    """an entry whose key starts with a marker of the consolidated codec, or a nested tensordict under a "<TD>..." key (D116)"""
+    if isinstance(o, list) or "ents" not in o:
+        return any(marker_key(m) for m in o.get("members", [])) if isinstance(o, dict) else False
+    for k, v in o["ents"].items():
+        if k.startswith(MARKERS) or (isinstance(v, dict) and k.startswith("<TD>")) or marker_key(v):
+            return True
+    return False
 
 
 def has_reserved_sub(o):
@@ -539,8 +581,13 @@ def explain(base_fmt, outcome, after, d, ctx, before):
     if base_fmt in ("pickle", "deepcopy") and ctx["consolidated"] and has_reserved_sub(before) \
             and (outcome == "raise" or d[1] in ("keys", "kind")):
         return "nested-key-is-a-metadata-field"
+    if marker_key(before) and (base_fmt in ("consolidate", "consolidate_file") or ctx["consolidated"]) \
+            and (outcome == "raise" or d[1] in ("keys", "kind")):
+        return "key-starts-with-codec-marker"
     if outcome == "raise":
         if base_fmt in ("consolidate", "consolidate_file") and not ctx["already_consolidated"]:
+            if "Failed to stack tensors" in after and unstackable_lazy(before):
+                return "lazy-stack-unstackable"
             if ci.get("misaligned16") and "must be divisible by 16" in after:
                 return "elsize16-misaligned"
             if ci.get("threads", 0) >= 1 and ci.get("unviewable") and "RuntimeError" in after and "view" in after:
@@ -552,6 +599,8 @@ def explain(base_fmt, outcome, after, d, ctx, before):
                 return "use_buffer-storage"
         if base_fmt == "struct" and struct_misaligned(before) and "ValueError" in after:
             return "packed-record-unaligned-field"
+        if base_fmt == "struct" and "MisalignedTensor" in after and struct_offset_may_misalign(before):
+            return "packed-record-misaligned-offset"
         return "unexplained"
     field = d[1]
     if base_fmt in ("pickle", "deepcopy"):
@@ -592,7 +641,7 @@ def judge(R, case, fmt, opt, before, outcome, after, ctx):
         return   # declared limitation: the json metadata of a file cannot name a custom tensorclass
     if outcome == "raise":
         pattern = explain(base_fmt, outcome, after, None, ctx, before)
-        if base_fmt == "consolidate_file" and pattern in ("elsize16-misaligned", "noncontiguous-leaf-threaded"):
+        if base_fmt == "consolidate_file" and pattern in ("elsize16-misaligned", "noncontiguous-leaf-threaded", "lazy-stack-unstackable"):
             sig["call"] = "consolidate"
         R.oracle_fail(fmt + ":raises", full, {"exception": after}, dict(sig, pattern=pattern, kind="raises"))
         return
@@ -608,7 +657,7 @@ def judge(R, case, fmt, opt, before, outcome, after, ctx):
 
 
 # ------------------------------------------------------------------ model side: live tensordict -> model tree
-PAYLOADS = ["hello", "x", "a b", ""]
+PAYLOADS = ["hello", "x", "a b", "", "hi"]
 
 
 def names_sx(names, rank):
@@ -646,6 +695,8 @@ def to_model(td, storage=None):
         return None
     ents = []
     for k, v in td.items():
+        if k.startswith(MARKERS) or k.startswith("<TD>"):
+            return None     # keys the codec mistakes for its markers (D116): Model/C11_Jagged.v has them, Model/C11_Tree.v does not
         if is_non_tensor(v):
             if isinstance(v, LazyStackedTensorDict) or v.data not in PAYLOADS:
                 return None
@@ -1084,6 +1135,274 @@ def jagged_grid(R):
     consume(R, recs)
 
 
+
+# ------------------------------------------------------------------ the codec with jagged tensors / lazy stacks / tensorclasses
+def to_jmodel(td):
+    """live tensor collection -> model jtree (Model/C11_Jagged.v), None when something in it is outside that model
+    (non-tensor stacks, unknown payloads / dtypes)"""
+    from tensordict import LazyStackedTensorDict
+    from tensordict.base import TensorDictBase
+    from tensordict.utils import is_non_tensor
+    from tensordict.tensorclass import is_tensorclass
+    if isinstance(td, LazyStackedTensorDict):
+        ents = []
+        for i, m in enumerate(td.tensordicts):
+            sub = to_jmodel(m)
+            if sub is None:
+                return None
+            ents.append([Sym("td"), str(i), sub])
+        return [Sym("jnode"), [Sym("lazy"), td.stack_dim, some(td._td_dim_name), bool(td.is_locked)], ents]
+    tc = is_tensorclass(td)
+    inner = td._tensordict if tc else td
+    if type(inner).__name__ != "TensorDict":
+        return None
+    ents = []
+    for k, v in inner.items():
+        if is_non_tensor(v):
+            if isinstance(v, LazyStackedTensorDict) or v.data not in PAYLOADS:
+                return None
+            ents.append([Sym("nt"), k, PAYLOADS.index(v.data), list(v.batch_size)])
+        elif isinstance(v, TensorDictBase) or is_tensorclass(v):
+            sub = to_jmodel(v)
+            if sub is None:
+                return None
+            ents.append([Sym("td"), k, sub])
+        elif isinstance(v, torch.Tensor) and v.is_nested:
+            if v.layout is not torch.jagged or v._values.dtype not in I.DT_BY_TORCH:
+                return None
+            ents.append([Sym("njt"), k, leaf_sx(v._values), None if v._lengths is None else [Sym("some"), leaf_sx(v._lengths)],
+                         leaf_sx(v._offsets)])
+        elif isinstance(v, torch.Tensor) and v.dtype in I.DT_BY_TORCH:
+            ents.append([Sym("t"), k, leaf_sx(v)])
+        else:
+            return None
+    names = list(inner.names) if inner._has_names() else None
+    meta = [list(inner.batch_size), names_sx(names, inner.batch_dims), None if inner.device is None else [Sym("some"), 0], bool(inner.is_locked)]
+    return [Sym("jnode"), [Sym("tc"), 0, meta] if tc else [Sym("td"), meta], ents]
+
+
+def jmeta_of(md):
+    """a real metadata dict in the printed form of the model's jmtree"""
+    cm = md["cls_metadata"]
+    if md["cls"] == "LazyStackedTensorDict":
+        cls = [Sym("lazy"), cm["stack_dim"], some(cm["stack_dim_name"]), bool(cm["is_locked"])]
+    else:
+        meta = [list(cm["batch_size"]), names_sx(cm["names"], len(cm["batch_size"])), None if cm["device"] is None else [Sym("some"), 0],
+                bool(cm["is_locked"])]
+        cls = [Sym("td"), meta] if md["cls"] == "TensorDict" else [Sym("tc"), 0, meta]
+    nts = [[k, PAYLOADS.index(v[0]), list(v[1])] for k, v in md["non_tensors"].items()]
+    lvs = []
+    for k, r in md["leaves"].items():
+        dt = r[0].replace("torch.", "")
+        lvs.append([k, DT[dt][2], DT[dt][1], list(r[1]), [r[2], r[3], r[4]]])
+    subs = [[k, jmeta_of(v)] for k, v in md.items() if k not in ("cls", "non_tensors", "leaves", "cls_metadata")]
+    return [Sym("mnode"), cls, nts, lvs, subs]
+
+
+def jfeatures(t):
+    """which of the newly modelled node / leaf kinds a jtree uses"""
+    out = set()
+
+    def go(n):
+        out.add(str(n[1][0]))
+        for e in n[2]:
+            if e[0] == "njt":
+                out.add("njt+lengths" if e[3] is not None else "njt")
+            elif e[0] == "td":
+                go(e[2])
+    go(t)
+    return out
+
+
+def jcodec_trees(R, n):
+    import itertools
+    trees = []
+    for where in ("root", "nested", "both"):
+        for k in range(1, 4):
+            for flags in itertools.product([True, False], repeat=k):
+                trees.append(jagged_tree(list(flags), where, seed=k))
+    # lazy stacks (members with different key sets, nested in / holding jagged tensors), tensorclass nodes, markers-free odd keys
+    mem = lambda i, extra: {"bs": [3], "names": None, "dev": None,  # noqa: E731
+                            "ents": [["x", ["t", "int16", [3], "plain", 5 + i]], ["y", ["t", "uint8", [3, 2], "plain", 9 + i]]] + extra}
+    trees.append({"bs": [2, 3], "names": None, "dev": None, "ents": [["l", ["lazy", 0, [mem(0, []), mem(1, [["w", ["t", "int64", [3], "plain", 2]]])]]],
+                                                                   ["z", ["t", "uint8", [2, 3], "plain", 1]]]})
+    trees.append({"bs": [3], "names": None, "dev": None, "ents": [["z", ["t", "uint8", [3], "plain", 1]],
+                                                                ["l", ["lazy", 1, [mem(0, [["j", ["njt", "int16", [2, 0, 1], [], 3, True]]]),
+                                                                                  mem(1, [["j", ["njt", "int16", [1, 1, 1], [], 4, False]]]),
+                                                                                  mem(2, [["j", ["njt", "int16", [0, 2, 2], [], 5, None]]])]]],
+                                                                ["c", ["tc", "int32", 4]], ["leaves", ["td", mem(7, [["s", ["nt", "hello"]]])]]]})
+    trees.append({"bs": [3], "names": ["t"], "dev": "cpu", "ents": [["c", ["tc", "float32", 4]], ["<x", ["t", "int8", [3], "plain", 1]],
+                                                                   ["a>", ["njt", "int64", [1, 2, 3], [2], 6, True]]]})
+    for _ in range(n):
+        trees.append(gen_tree(R.rng)[0])
+    return trees
+
+
+def jcodec_stream(R, n):
+    """writer and reader of the consolidated codec on trees with jagged tensors, lazy stacks and tensorclass nodes:
+    metadata dict + storage bytes of consolidate(metadata=True) (single-threaded and through worker threads), and what
+    _rebuild_tensordict_files_consolidated / pickle / from_consolidated make of them, against Model/C11_Jagged.v"""
+    import pickle
+    from tensordict import TensorDict
+    from tensordict._reductions import _rebuild_tensordict_files_consolidated
+    from .core import parse_sx
+    norm = lambda x: parse_sx(sx(x))  # noqa: E731
+    lines, meta = [], []
+    for tree in jcodec_trees(R, n):
+        case = {"tree": tree, "ops": [["consolidate", {"metadata": True}]], "format": "pickle", "opt": {}}
+        trace(case)
+        r = call(lambda: I.build(tree))
+        if r[0] != "ok":
+            R.count("jcodec:build-raises")
+            continue
+        td = r[1]
+        jt = to_jmodel(td)
+        if jt is None:
+            R.count("jcodec:outside-the-model")
+            continue
+        feats = jfeatures(jt)
+        obs_list = []
+        for nt in (0, 2):
+            rc = call(lambda: td.consolidate(metadata=True, num_threads=nt))
+            if rc[0] != "ok":
+                obs_list.append(("raise", nt, rc[1]))
+                continue
+            c = rc[1]
+            md, st = c._consolidated["metadata"], c._consolidated["storage"]
+            rb = call(lambda: to_jmodel(_rebuild_tensordict_files_consolidated(md, st)))
+            pk = call(lambda: to_jmodel(pickle.loads(pickle.dumps(c))))
+            obs_list.append(("ok", nt, norm(jmeta_of(md)), st.tolist(), rb, pk))
+        if not any(f in feats for f in ("tc",)):
+            with Scratch() as scratch:
+                fn = os.path.join(scratch, "j.bin")
+                rf = call(lambda: (td.consolidate(fn), to_jmodel(TensorDict.from_consolidated(fn)))[1])
+        else:
+            rf = None
+        for f in sorted(feats):
+            R.count("jcodec:" + f)
+        R.case(("jcodec", json.dumps(tree, sort_keys=True)), nontrivial=bool(tree["ents"]))
+        lines.append(sx([Sym("jcodec"), jt]))
+        meta.append((case, obs_list, rf, feats))
+    for (case, obs_list, rf, feats), res in zip(meta, R.model(lines)):
+        R.traces += 1
+        if isinstance(res, list) and res and res[0] == "decode-error":
+            R.mismatch("jcodec:protocol", case, "n/a", res)
+            continue
+        mmeta, mstorage, mrb = res
+        for o in obs_list:
+            if o[0] == "raise":
+                # (consolidate itself raised: the oracle streams judge that; nothing to compare the codec with)
+                R.count("jcodec:consolidate-raises")
+                continue
+            _, nt, imeta, istorage, rb, pk = o
+            if imeta != mmeta:
+                R.mismatch("jcodec:metadata", dict(case, num_threads=nt), imeta, mmeta)
+                break
+            if istorage != list(mstorage):
+                R.mismatch("jcodec:storage-bytes", dict(case, num_threads=nt), istorage[:64], list(mstorage)[:64])
+                break
+            for label, got in (("reader", rb), ("pickle", pk)):
+                want = mrb
+                if got[0] != "ok":
+                    if want[0] != "raised":
+                        R.mismatch("jcodec:%s-outcome" % label, dict(case, num_threads=nt), got[1], want)
+                elif want[0] == "raised":
+                    R.mismatch("jcodec:%s-outcome" % label, dict(case, num_threads=nt), "ok", want)
+                elif got[1] is None or norm(got[1]) != want[1]:
+                    R.mismatch("jcodec:%s-result" % label, dict(case, num_threads=nt), None if got[1] is None else norm(got[1]), want[1])
+        if rf is not None and rf[0] == "ok" and mrb[0] == "ok":
+            # the file keeps the metadata of the source; the tensordict read back has no device of its own at the root only if
+            # the source had none: same reader, same records
+            if rf[1] is None or norm(rf[1]) != mrb[1]:
+                R.mismatch("jcodec:from_consolidated-result", case, None if rf[1] is None else norm(rf[1]), mrb[1])
+
+
+# ------------------------------------------------------------------ worker threads: every completion order
+def threads_stream(R, n):
+    """consolidate(num_threads=3) under the permuting executor of harness/c12_thr.py (read-only import): the storage bytes
+    after the copy tasks completed in a drawn order, against the model's run_tasks on a 0xFF-filled storage"""
+    from .c12_thr import scheduled
+    lines, meta = [], []
+    trees = [t for t in jcodec_trees(R, n) if t["ents"]]
+    for tree in trees:
+        r = call(lambda: I.build(tree))
+        if r[0] != "ok":
+            continue
+        td = r[1]
+        fl = call(lambda: td._reduce_vals_and_metadata(requires_metadata=True, dtype=None)[1])
+        if fl[0] != "ok":
+            continue
+        keys = list(fl[1].keys())
+        owners = [i for i, k in enumerate(keys) if not k[-1].startswith("<NJT>")]
+        vals = [fl[1][keys[i]] for i in owners]
+        if not owners or any(v.dtype not in I.DT_BY_TORCH for v in vals):
+            continue
+        orders = [list(range(len(keys))), list(reversed(range(len(keys))))]
+        for _ in range(2):
+            o = list(range(len(keys)))
+            R.rng.shuffle(o)
+            orders.append(o)
+        for order in orders:
+            case = {"tree": tree, "ops": [], "format": "consolidate", "opt": {"num_threads": 3, "metadata": True}, "order": order}
+            trace(case)
+
+            def run():
+                with scheduled(order=order) as s:
+                    c = td.consolidate(metadata=True, num_threads=3)
+                return c, list(s.ran), s.never_run
+            rc = call(run)
+            if rc[0] != "ok":
+                R.count("threads:consolidate-raises")
+                continue
+            c, ran, never = rc[1]
+            R.case(("threads", json.dumps(tree, sort_keys=True), tuple(order)), nontrivial=True)
+            R.count("threads:%d-tasks" % min(len(owners), 8))
+            # oracle: whatever the completion order, the consolidated tensordict equals its source
+            d = first_diff(obs(td), obs(c))
+            if d or never:
+                R.oracle_fail("consolidate:" + (d[1] if d else "task-never-run"), case,
+                              {"field": d[1], "at": d[0], "serialised": d[2], "restored": d[3]} if d else {"never_run": never},
+                              {"call": "consolidate", "pattern": "unexplained", "field": d[1] if d else "values"})
+            pos = {i: j for j, i in enumerate(owners)}
+            lines.append(sx([Sym("threads"), [leaf_sx(v) for v in vals], [255] * c._consolidated["storage"].numel(),
+                             [pos[i] for i in ran if i in pos]]))
+            meta.append((case, c._consolidated["storage"].tolist()))
+    for (case, istorage), res in zip(meta, R.model(lines)):
+        R.traces += 1
+        if list(res) != istorage:
+            R.mismatch("threads:storage-bytes", case, istorage[:64], list(res)[:64])
+
+
+def finding_grids(R):
+    """small grids around the two defects found while modelling the codec (judged by the oracle, like every other case):
+    lazy stacks whose members cannot be stacked densely (D117), keys that start with a marker of the codec (D116)"""
+    recs = []
+    mem = lambda i, feat, extra: {"bs": [3], "names": None, "dev": None,  # noqa: E731
+                                  "ents": [["x", ["t", "int16", [3] + feat, "plain", 5 + i]]] + extra}
+    lazies = [[mem(0, [2], []), mem(1, [4], [])],
+              [mem(0, [], [["j", ["njt", "int16", [2, 0, 1], [], 3, True]]]), mem(1, [], [["j", ["njt", "int16", [1, 1, 1], [], 4, False]]])],
+              [mem(0, [2], []), mem(1, [2], [["w", ["t", "int64", [3], "plain", 2]]])]]      # (different key sets: stackable)
+    trees = [{"bs": [3], "names": None, "dev": None, "ents": [["z", ["t", "uint8", [3], "plain", 1]], ["l", ["lazy", 1, ms]]]} for ms in lazies]
+    for key in ("<NJT_OFFSETS>x", "<NJT_VALUES>x", "<NJT_LENGTHS>x", "<NJT>x", "<x", "x<NJT>"):
+        trees.append({"bs": [], "names": None, "dev": None, "ents": [[key, ["t", "int32", [3], "plain", 2]], ["y", ["t", "uint8", [2], "plain", 1]]]})
+    for key in ("<TD>x", "<TD>", "<T"):
+        trees.append({"bs": [], "names": None, "dev": None,
+                      "ents": [[key, ["td", {"bs": [], "names": None, "dev": None, "ents": [["a", ["t", "int32", [3], "plain", 2]]]}]],
+                               ["y", ["t", "uint8", [2], "plain", 1]]]})
+    for tree in trees:
+        for nt in (0, 2):
+            for ops, plan in (([["consolidate", {"metadata": True, "num_threads": nt}]], [("pickle", {}), ("deepcopy", {})]),
+                              ([], [("consolidate_file", {"num_threads": nt}), ("consolidate", {"num_threads": nt, "metadata": True}),
+                                    ("pickle", {}), ("deepcopy", {})])):
+                case = {"tree": tree, "ops": ops, "profile": "finding-grid"}
+                trace(dict(case, format=plan[0][0]))
+                try:
+                    recs.append(exec_case(case, plan))
+                except Exception as e:  # noqa: BLE001
+                    recs.append({"case": case, "results": [], "model": None, "crash": type(e).__name__ + ": " + str(e)[:200]})
+                R.count("finding-grid")
+    consume(R, recs)
+
 # ------------------------------------------------------------------ numpy structured arrays
 NP_DTYPES = ["uint8", "int8", "bool", "int16", "float16", "int32", "float32", "int64", "float64", "complex64", "complex128"]
 
@@ -1100,11 +1419,17 @@ def struct_grid(R, maxlen):
             trace(case)
             td = I.build(tree)
             before = obs(td)
-            r = call(lambda: obs(FORMATS["struct"][0](td, None, {})))
+            r0 = call(lambda: FORMATS["struct"][0](td, None, {}))
+            if r0[0] == "ok" and I.misaligned_entries(r0[1]):
+                r = ("ok", None)
+                bad = "MisalignedTensor: from_struct_array returned entries that do not start at a multiple of their element size: " \
+                    + str(I.misaligned_entries(r0[1]))
+            else:
+                r, bad = (call(lambda: obs(r0[1])) if r0[0] == "ok" else r0), None
             R.case(("struct", combo), nontrivial=True)
             R.count("struct:%d-fields" % n)
             ctx = {"step": "final", "consolidated": False, "already_consolidated": False, "post_ops": [], "cons": None}
-            judge(R, case, "struct", {}, before, "ok" if r[0] == "ok" else "raise", r[1], ctx)
+            judge(R, case, "struct", {}, before, "raise" if bad or r[0] != "ok" else "ok", bad or r[1], ctx)
             lines.append(sx([Sym("struct-ok"), [DT[d][1] for d in combo]]))
             meta.append((case, r[0] == "ok"))
     for (case, ok), m in zip(meta, R.model(lines)):
@@ -1446,9 +1771,13 @@ def main(R):
                      "names, device, lock state, container types; state_dict: keys, values, batch sizes (documented: no names); "
                      "pytree: all but lock state; to_dict/namedtuple/struct array: keys, values (+ the batch size the caller passes again)",
                      "key ORDER is not compared (equality of tensordicts is by key)",
-                     "the model covers TensorDict trees with tensor and NonTensorData entries (every consolidate configuration incl. worker threads, "
-                     "file and use_buffer targets); lazy stacks, jagged tensors, tensorclasses, in-place consolidation and nested "
-                     "tensordicts carrying their own snapshot are judged by the oracle only"]
+                     "the history model (Model/C11_Tree.v) covers TensorDict trees with tensor and NonTensorData entries (every consolidate "
+                     "configuration incl. worker threads, file and use_buffer targets); the codec model (Model/C11_Jagged.v) adds jagged tensors "
+                     "(values / lengths / offsets records), lazy stacks and tensorclass nodes to the writer (metadata dict + storage bytes) and "
+                     "to the reader (_rebuild_tensordict_files_consolidated, pickle of a current snapshot, from_consolidated), and the copy "
+                     "tasks of consolidate(num_threads>0) in every completion order (permuting executor of harness/c12_thr.py); histories "
+                     "on trees with those entries, in-place consolidation and nested tensordicts carrying their own snapshot are judged by "
+                     "the oracle only"]
     R.trusted = ["harness/c11_impl.py (builders, canonical observation) and the per-format table of carried fields",
                  "torch's view / copy / pickling of storages; multiprocessing transport"]
     R.step_prove()
@@ -1479,6 +1808,9 @@ def main(R):
         struct_grid(R, 2 if q else 3)
         reserved_keys(R)
         jagged_grid(R)
+        finding_grids(R)
+        jcodec_stream(R, 150 if q else 4000)
+        threads_stream(R, 25 if q else 600)
     t0 = time.time()
     supervised(R, "layout-grid", sec_grid, 900 if q else 3000)
     R.extra["grid_wall_s"] = round(time.time() - t0, 1)
